@@ -24,6 +24,7 @@ import (
 	"google.golang.org/protobuf/internal/flags"
 	"google.golang.org/protobuf/internal/strs"
 	"google.golang.org/protobuf/proto"
+	"google.golang.org/protobuf/reflect/protodesc"
 	"google.golang.org/protobuf/reflect/protoreflect"
 	"google.golang.org/protobuf/reflect/protoregistry"
 	"google.golang.org/protobuf/types/descriptorpb"
@@ -46,7 +47,7 @@ func runC35(c *C) {
 		}
 	}
 	witnessesC35(c)
-	n := c.N(70, 4000)
+	n := c.N(50, 1500)
 	for i := 0; i < n && !c.Failed(); i++ {
 		base := genFile(c.Rand, genOpts{ForModel: true, Syntax: []string{"proto2", "proto3", "editions", ""}[c.Rand.Intn(4)]}, i)
 		if !verdictCase(c, base, "base", "ok") {
@@ -1128,6 +1129,11 @@ func exitProbe(c *C) {
 
 func exitProbeChild() {
 	p := &descriptorpb.FileDescriptorProto{Name: proto.String("cmd/protoc-gen-go/testdata/w.proto"), Syntax: proto.String("editions")}
-	_, err, pn := newFile(p, nil, false)
-	fmt.Println("returned", err, pn)
+	defer func() {
+		if e := recover(); e != nil {
+			fmt.Println("returned (panic)", e)
+		}
+	}()
+	_, err := protodesc.NewFile(p, nil) // the real call: the in-process wrapper refuses this input
+	fmt.Println("returned", err)
 }
